@@ -115,9 +115,12 @@ structure Adapters where
   stackLimit : Option Nat := none
   /-- `Adapter.lenientOperandLists` (a *finding*, not a consensus change: see there) -/
   lenientLists : Bool := false
-  /-- `Adapter.coreFragment`: a *domain restriction* used by theorem `C01_main_core` only (never by
-  the streams): the `((X) …)` form and opcode 36 end the comparison (`outOfDomain`) -/
-  coreOnly : Bool := false
+  /-- `Adapter.coreFragment`: a *domain restriction* used by machine-level theorems only (never by
+  the streams): evaluating a `((X) …)` form ends the comparison (`outOfDomain`) -/
+  noInnerForm : Bool := false
+  /-- `Adapter.noGuards` / `Adapter.coreFragment`: a *domain restriction* used by machine-level
+  theorems only: applying opcode 36 ends the comparison (`outOfDomain`) -/
+  noSoftfork : Bool := false
 
 /-- the Python, unchanged -/
 def Adapters.none : Adapters := {}
@@ -171,7 +174,7 @@ def evalOp (ad : Adapters) (st : St) : Except RefErr (Nat × St) :=
     | .pair operator operandList =>
       match operator with
       | .pair newOperator mustBeNil =>
-        if ad.coreOnly then .error .outOfDomain else
+        if ad.noInnerForm then .error .outOfDomain else
         -- `if new_operator.pair or must_be_nil.atom != b"": raise "in ((X)...) syntax X must be lone atom"`
         let bad := listp newOperator ||
           (if ad.lenientLists then (match mustBeNil with | .pair _ _ => true | .atom _ => false)
@@ -279,7 +282,7 @@ def applyOp (ad : Adapters) (st : St) (currentCost : Nat) (remaining : Option Na
             | .error e => .error e
             | .ok st => .ok (APPLY_COST, { st with opStack := .eval :: st.opStack })
           | _ => .error .internal
-      else if ad.coreOnly && op.map UInt8.toNat == [0x24] then .error .outOfDomain
+      else if ad.noSoftfork && op.map UInt8.toNat == [0x24] then .error .outOfDomain
       else
         match ad.softfork, op.map UInt8.toNat == [0x24] with
         | some cfg, true => softforkApply ad cfg st operandList currentCost remaining
@@ -472,7 +475,11 @@ theorem `C01_main_core`: a run that evaluates a `((X) …)` form or applies opco
 fragment (`RefErr.outOfDomain`).  Inside the fragment every operand list an operator sees has been
 evaluated (so it ends in nil and the strict and the lenient reading coincide) and no softfork guard
 is ever entered. -/
-def coreFragment (ad : Adapters) : Adapters := { ad with coreOnly := true }
+def coreFragment (ad : Adapters) : Adapters := { ad with noInnerForm := true, noSoftfork := true }
+
+/-- **`Adapter.noGuards`** — the domain restriction of `C01_main_lenient`: only opcode 36 (softfork
+guards) is outside; the `((X) …)` form is inside. -/
+def noGuards (ad : Adapters) : Adapters := { ad with noSoftfork := true }
 
 /-- **`Adapter.restrictCalls`** — like `coreFragment` a restriction of the *domain* of a theorem, never
 used by the streams: an operator call `(op, args)` for which `excl` holds ends the comparison
